@@ -173,6 +173,8 @@ type crashPlan struct {
 	side string
 	// or a reject window: the store rejects the CAS calls rejFrom .. rejFrom+rejLen-1 of that incarnation
 	rejFrom, rejLen int
+	// or a CAS conflict: the first attempt of the confAt-th CAS call of that incarnation is lost (conflict_test.go)
+	confAt int
 }
 
 type scenario struct {
@@ -203,6 +205,7 @@ func (s *scRun) startTarget() {
 	if s.plan.inc == s.incs {
 		at, side = s.plan.at, s.plan.side
 		s.w.rejNext = [2]int{s.plan.rejFrom, s.plan.rejLen}
+		s.w.confNext = s.plan.confAt
 	}
 	if err := s.w.start(1, s.tgt, s.seed+int64(s.incs), at, side); err != nil {
 		s.w.fatal = err.Error()
